@@ -3,7 +3,7 @@ import CssVerif.Model.Num
 # The tokenizer-side value of STRING and URI tokens (C18)
 
 ONE definition, `tokenValue`, of how the tokenizer turns the source text of a token into the token value the value
-classes receive (`cssutils/tokenize2.py:31-32` `unicodesub`, `cleanstring`; `:112-124` `_repl`; `:222-227`).
+classes receive (`cssutils/tokenize2.py:36-38` `stringsub`; `:117-132` `_repl`; `:229-235`).
 Everything in the C18 model that is about *source* strings / URLs goes through it (`stringSourceValue`,
 `uriSourceValue`), so a repair of the tokenizer is followed by changing this file only.
 -/
@@ -17,41 +17,33 @@ deriving DecidableEq, Repr, Inhabited
 /-- `sys.maxunicode` -/
 def maxUnicode : Nat := 0x10FFFF
 
-/-- `unicodesub(_repl, found)`: `\\\\` stays; `\hex{1,6}` with one optional white space becomes the character
-(`\\\\` for U+005C, unchanged beyond `sys.maxunicode`); non-overlapping, from the left. `fuel ≥ length`. -/
-def unicodeSubAux : Nat → Cps → Cps
+/-- `stringsub(_repl, found)` (`tokenize2.py:36-38`, `_repl` `:117-132`), one pass over the source text, non-overlapping,
+from the left: `\\\\` stays; a line continuation (backslash + CR LF / LF / CR / FF) disappears; `\hex{1,6}` with one
+optional white space becomes the character (`\\\\` for U+005C, unchanged beyond `sys.maxunicode`). `fuel ≥ length`. -/
+def stringSubAux : Nat → Cps → Cps
   | 0, s => s
   | _ + 1, [] => []
   | _ + 1, [c] => [c]
   | fuel + 1, c :: d :: t =>
     if c = cBackslash then
-      if d = cBackslash then c :: d :: unicodeSubAux fuel t
+      if d = cBackslash then c :: d :: stringSubAux fuel t
+      else if d = 0x0D then
+        stringSubAux fuel (match t with | 0x0A :: t' => t' | _ => t)
+      else if d = 0x0A ∨ d = 0x0C then stringSubAux fuel t
       else if isHexDigit d then
         let r := takeHex 6 0 (d :: t)
         let rest := skipEscSpace r.2
         let matched := (c :: d :: t).take ((c :: d :: t).length - rest.length)
         (if r.1 = 0x5C then [cBackslash, cBackslash] else if r.1 ≤ maxUnicode then [r.1] else matched)
-          ++ unicodeSubAux fuel rest
-      else c :: unicodeSubAux fuel (d :: t)
-    else c :: unicodeSubAux fuel (d :: t)
+          ++ stringSubAux fuel rest
+      else c :: stringSubAux fuel (d :: t)
+    else c :: stringSubAux fuel (d :: t)
 
-def unicodeSub (s : Cps) : Cps := unicodeSubAux (s.length + 1) s
+def stringSub (s : Cps) : Cps := stringSubAux (s.length + 1) s
 
-/-- `cleanstring('', value)`: a backslash followed by CR LF, LF, CR or FF disappears -/
-def cleanString : Cps → Cps
-  | [] => []
-  | [c] => [c]
-  | [c, d] => if c = cBackslash ∧ (d = 0x0D ∨ d = 0x0A ∨ d = 0x0C) then [] else c :: cleanString [d]
-  | c :: d :: e :: t =>
-    if c = cBackslash ∧ d = 0x0D ∧ e = 0x0A then cleanString t
-    else if c = cBackslash ∧ (d = 0x0D ∨ d = 0x0A ∨ d = 0x0C) then cleanString (e :: t)
-    else c :: cleanString (d :: e :: t)
-
-/-- **the** tokenizer-side value function: token source text ↦ token value -/
-def tokenValue (k : TokKind) (src : Cps) : Cps :=
-  let v := unicodeSub src
-  -- `if name in ('STRING', 'INVALID'):  # 'URI'?`
-  if k = .string then cleanString v else v
+/-- **the** tokenizer-side value function: token source text ↦ token value. STRING, INVALID and URI tokens are all
+decoded by `stringsub` (`tokenize2.py:231-233`); the kind is kept as a parameter for the callers. -/
+def tokenValue (_k : TokKind) (src : Cps) : Cps := stringSub src
 
 /-- `Value.value` of a STRING token written `src` (`PreDef.string`: `helper.stringvalue(t[1])`) -/
 def stringSourceValue (src : Cps) : Except Err Cps := stringValue (tokenValue .string src)
